@@ -1,5 +1,6 @@
 import RallyProofs.MechanicNeutral
 import RallyProofs.MechanicLauncher
+import RallyProofs.MechanicStop
 
 /-!
 # C12 — cluster engine start/stop is all-or-nothing across hosts and reports failures
@@ -261,6 +262,103 @@ example : (Launcher.startAll ⟨0, fun _ => none, 100, [], []⟩ [1, 2, 3]).2 = 
 
 example : Launcher.Sane ⟨0, fun _ => none, 100, [7, 9], []⟩ ∧ [1, 2, 3].Nodup :=
   ⟨⟨by decide, by decide⟩, by decide⟩
+
+/-! ## one call below `Mechanic.stop_engine` (round 6): clean-up on the directory tree, system metrics of nodes that died
+
+`stop_sequence` says that `launcher.stop`, the per-node store of the system results and `provisioner.cleanup` are *called*
+for every node.  What these calls do is modelled in `Mechanic.Cleanup` (a directory tree of component-wise paths) and
+`Mechanic.Launcher.stopAllT` (process table + what reaches the metrics store). -/
+
+/-- `provisioner.cleanup` on any directory tree, for any installation directory and any list of data paths (inside or
+outside the installation, nested in each other, repeated, missing, with names that extend each other): with `preserve`
+the tree is untouched; without it exactly the directories survive that are neither the installation, nor one of the
+data paths, nor below one of them — every listed path is gone and nothing else is. -/
+theorem cleanup_wipes_every_listed_path_and_nothing_else (preserve : Bool) (install : Cleanup.Path)
+    (dataPaths : List Cleanup.Path) {fs : List Cleanup.Path} (hc : Cleanup.Closed fs) (q : Cleanup.Path) :
+    q ∈ Cleanup.cleanup preserve install dataPaths fs ↔
+      q ∈ fs ∧ (preserve = true ∨ (¬ install <+: q ∧ ∀ d ∈ dataPaths, ¬ d <+: q)) :=
+  Cleanup.cleanup_spec preserve install dataPaths hc q
+
+/-- … in particular no data path and nothing below it is left, whatever else is called like it -/
+theorem cleanup_leaves_no_data_path (install : Cleanup.Path) (dataPaths : List Cleanup.Path) {fs : List Cleanup.Path}
+    (hc : Cleanup.Closed fs) {d : Cleanup.Path} (hd : d ∈ dataPaths) {q : Cleanup.Path} (hq : d <+: q) :
+    q ∉ Cleanup.cleanup false install dataPaths fs := by
+  intro h
+  rcases ((Cleanup.cleanup_spec false install dataPaths hc q).1 h).2 with h | h
+  · cases h
+  · exact h.2 d hd hq
+
+-- root [] / races [1] / install [1,2] / install/data [1,2,3] / disks [4] / data1 [4,5] / data10 [4,6] / data100 [4,7] (not listed)
+example : Cleanup.cleanup false [1, 2] [[4, 5], [4, 6], [1, 2, 3]] [[], [1], [1, 2], [1, 2, 3], [4], [4, 5], [4, 6], [4, 6, 9], [4, 7]]
+      = [[], [1], [4], [4, 7]] ∧
+    Cleanup.cleanup true [1, 2] [[4, 5], [4, 6]] [[], [1], [1, 2], [4], [4, 5], [4, 6]] = [[], [1], [1, 2], [4], [4, 5], [4, 6]] := by
+  decide
+
+example : Cleanup.Closed [[], [1], [1, 2], [4], [4, 5]] := by
+  intro q hq p hp
+  simp only [List.mem_cons, List.not_mem_nil, or_false] at hq
+  rcases hq with rfl | rfl | rfl | rfl | rfl <;>
+    (have := List.prefix_iff_eq_take.1 hp; revert this; generalize p.length = k; intro h; subst h
+     match k with
+     | 0 | 1 | 2 | k + 3 => simp)
+
+/-- from the car variable to the clean-up: whatever form the documented car variable `data_paths` has (not defined, one
+string, a list - anything else is rejected with a SystemSetupError and only that), the data paths the installer derives
+are exactly the ones named (not defined: `<es home>/data`), and after the node's clean-up without `preserve` none of
+them, nothing below them and nothing of the installation exists. -/
+theorem car_data_paths_are_wiped (home : Cleanup.Path) (v : Cleanup.CarVar) {fs : List Cleanup.Path} (hc : Cleanup.Closed fs) :
+    (Cleanup.dataPathsOf home v = none ↔ v = .other) ∧
+      ∀ ds, Cleanup.dataPathsOf home v = some ds →
+        ((v = .absent → ds = [home ++ [0]]) ∧ (∀ p, v = .str p → ds = [p]) ∧ (∀ ps, v = .list ps → ds = ps)) ∧
+        ∀ q, (home <+: q ∨ ∃ d ∈ ds, d <+: q) → q ∉ Cleanup.cleanup false home ds fs := by
+  refine ⟨Cleanup.dataPathsOf_none home v, fun ds h => ⟨Cleanup.dataPathsOf_spec home v h, ?_⟩⟩
+  intro q hq hm
+  rcases ((Cleanup.cleanup_spec false home ds hc q).1 hm).2 with h1 | h1
+  · cases h1
+  · rcases hq with hq | ⟨d, hd, hq⟩
+    · exact h1.1 hq
+    · exact h1.2 d hd hq
+
+example : Cleanup.dataPathsOf [1, 2] .absent = some [[1, 2, 0]] ∧ Cleanup.dataPathsOf [1, 2] (.str [4, 5]) = some [[4, 5]] ∧
+    Cleanup.dataPathsOf [1, 2] (.list [[4, 5], [4, 6]]) = some [[4, 5], [4, 6]] ∧ Cleanup.dataPathsOf [1, 2] .other = none := by
+  decide
+
+/-- `ProcessLauncher.stop` with a metrics store, for ANY process table and any nodes (alive, dead, never started):
+meta data and the system metrics of every node reach the metrics store exactly once and in order ("store system
+metrics in any case"), and the process side is `Launcher.stopAll` of round 4. -/
+theorem stop_stores_system_metrics_of_every_node (x : Launcher.World × Launcher.Tele) (nodes : List (Nat × Nat)) :
+    (Launcher.stopAllT x nodes).2.stored = x.2.stored ++ nodes.map (·.1) ∧
+      (Launcher.stopAllT x nodes).2.metaInfo = x.2.metaInfo ++ nodes.map (·.1) ∧
+      (Launcher.stopAllT x nodes).1 = Launcher.stopAll x.1 nodes :=
+  ⟨(Launcher.stopAllT_stored nodes x).1, (Launcher.stopAllT_stored nodes x).2, Launcher.stopAllT_world nodes x⟩
+
+/-- start, then any processes die on their own (any list of pids, also foreign ones), then stop: the system metrics of
+every started node are stored once, no node process runs afterwards, and a process that was already gone gets no signal. -/
+theorem stop_after_deaths_stores_all_and_leaves_none (dirs : List Nat) (w : Launcher.World) (hs : Launcher.Sane w)
+    (hd : dirs.Nodup) (dead : List Nat) :
+    let r := Launcher.startAll w dirs
+    let w1 := dead.foldl Launcher.die r.1
+    let x := Launcher.stopAllT (w1, Launcher.Tele.empty) r.2
+    x.2.stored = dirs ∧ x.2.metaInfo = dirs ∧ (∀ n ∈ r.2, n.2 ∉ x.1.running) ∧
+      (∀ q, q ∉ w1.running → x.1.terms.count q = w1.terms.count q) := by
+  intro r w1 x
+  obtain ⟨a1, _, _, _, a5, _⟩ := Launcher.startAll_spec dirs w hs hd
+  have h1 := Launcher.stopAllT_stored r.2 (w1, Launcher.Tele.empty)
+  have h2 : x.1 = Launcher.stopAll w1 r.2 := Launcher.stopAllT_world r.2 (w1, Launcher.Tele.empty)
+  refine ⟨?_, ?_, ?_, ?_⟩
+  · show (Launcher.stopAllT (w1, Launcher.Tele.empty) r.2).2.stored = dirs
+    rw [h1.1]; simpa [Launcher.Tele.empty] using a1
+  · show (Launcher.stopAllT (w1, Launcher.Tele.empty) r.2).2.metaInfo = dirs
+    rw [h1.2]; simpa [Launcher.Tele.empty] using a1
+  · rw [h2]; exact Launcher.stopAll_none_running r.2 w1 (Launcher.die_nodup dead a5.nodup)
+  · intro q hq; rw [h2]; exact Launcher.stopAll_terms_dead r.2 w1 q hq
+
+/-- three nodes, the second one's process (pid 101) dies before the stop: all three stored, two stopped, two SIGTERMs -/
+example :
+    let r := Launcher.startAll ⟨0, fun _ => none, 100, [], []⟩ [1, 2, 3]
+    let x := Launcher.stopAllT (Launcher.die r.1 101, Launcher.Tele.empty) r.2
+    x.2.stored = [1, 2, 3] ∧ x.2.stopped = [1, 3] ∧ x.2.detachedStopped = [1, 3] ∧ x.1.terms = [100, 102] ∧ x.1.running = [] := by
+  decide
 
 /-! ## ambient switches are neutral
 
